@@ -319,3 +319,35 @@ fn probe_repair_block_splices_no_panic() {
         }
     }
 }
+
+/// C03: whatever the reader configuration (the fail-safe-only option "return data even unauthenticated" included), the NORMAL reader
+/// never returns an altered byte: a bit flipped in the ciphertext of any chunk of a multi-chunk file gives an error or the original data
+#[test]
+fn probe_normal_reader_detects_alterations_any_config() {
+    let content = pnoise(3 * 131072 + 1234, 21);
+    let mut c = ArchiveWriterConfig::new();
+    c.set_layers(Layers::ENCRYPT);
+    c.add_public_keys(&[pkeys().1]);
+    let mut w = ArchiveWriter::from_config(Vec::new(), c).unwrap();
+    w.add_file("big", content.len() as u64, &content[..]).unwrap();
+    w.finalize().unwrap();
+    let good = w.into_raw();
+    for unauth_option in [false, true] {
+        for chunk in [0usize, 1, 2, 3] {
+            let mut bad = good.clone();
+            let at = bad.len().min(200 + chunk * (131072 + 16) + 5000);
+            if at >= bad.len() { continue; }
+            bad[at] ^= 0x10;
+            let mut rc = ArchiveReaderConfig::new();
+            rc.add_private_keys(&[pkeys().0]);
+            if unauth_option { rc.failsafe_return_data_even_unauthenticated(); }
+            let Ok(mut r) = ArchiveReader::from_config(Cursor::new(bad), rc) else { continue };
+            let Ok(Some(mut f)) = r.get_file("big".to_string()) else { continue };
+            let mut got = Vec::new();
+            let res = f.data.read_to_end(&mut got);
+            let n = got.len().min(content.len());
+            assert!(got[..n] == content[..n], "option={unauth_option}, bit flipped in chunk {chunk}: the normal reader returned an altered byte (read result {res:?})");
+            assert!(res.is_err() || got == content, "option={unauth_option}, chunk {chunk}: extra or missing data without an error");
+        }
+    }
+}
